@@ -1,9 +1,557 @@
 package main
 
+// Targets that involve files or a store: ReplicateTx (with the partial-effect oracle), the SQL index entry
+// mapper, valueRefFrom (through a hand-written index), the openers / readers of on-disk files, and the pgsql
+// session start-up over a loopback connection.
+
+import (
+	"bytes"
+	"context"
+	"crypto/sha256"
+	"encoding/hex"
+	"fmt"
+	"io"
+	"net"
+	"os"
+	"path/filepath"
+	"sort"
+	"strings"
+	"sync/atomic"
+
+	"github.com/codenotary/immudb/embedded/ahtree"
+	"github.com/codenotary/immudb/embedded/appendable"
+	"github.com/codenotary/immudb/embedded/appendable/multiapp"
+	"github.com/codenotary/immudb/embedded/appendable/singleapp"
+	"github.com/codenotary/immudb/embedded/logger"
+	"github.com/codenotary/immudb/embedded/sql"
+	"github.com/codenotary/immudb/embedded/store"
+	"github.com/codenotary/immudb/embedded/tbtree"
+	"github.com/codenotary/immudb/pkg/database"
+	pgserver "github.com/codenotary/immudb/pkg/pgsql/server"
+)
+
+var quiet = logger.NewMemoryLoggerWithLevel(logger.LogError)
+var bg = context.Background()
+var workSeq int64
+
+// workDir returns a fresh private copy of a template directory; the caller removes it.
+func workDir(tpl string) string {
+	d := filepath.Join(prepDir, fmt.Sprintf("w%s-%d", os.Getenv("C16_SLOT"), atomic.AddInt64(&workSeq, 1)))
+	if tpl != "" {
+		copyDir(tpl, d)
+	} else {
+		must(os.MkdirAll(d, 0755))
+	}
+	return d
+}
+
+// ---------- ReplicateTx ----------
+
+type stState struct {
+	committed, precommitted uint64
+	alh, palh               [sha256.Size]byte
+}
+
+func stateOf(st *store.ImmuStore) (s stState) {
+	s.committed, s.alh = st.CommittedAlh()
+	s.precommitted, s.palh = st.PrecommittedAlh()
+	return
+}
+
+// replicateRun: e.Aux is the template of a replica that holds every transaction before the exported one (e.B).
+// Oracle: if the altered input is rejected the store state is unchanged, the valid export is then accepted and
+// moves the store to exactly one more committed transaction.
+func replicateRun(skipIntegrity bool) func(e *enc, in []byte) string {
+	return func(e *enc, in []byte) string {
+		tpl, valid := filepath.Join(prepDir, "tpl", "rep-v1-0"), []byte(nil)
+		if e != nil {
+			tpl, valid = e.Aux, e.B
+		}
+		d := workDir(tpl)
+		defer os.RemoveAll(d)
+		st, err := store.Open(d, sopts(1))
+		must(err)
+		defer st.Close()
+		before := stateOf(st)
+		hdr, err := st.ReplicateTx(bg, in, skipIntegrity, false)
+		if err == nil {
+			if hdr == nil || st.LastCommittedTxID() != before.committed+1 {
+				return fmt.Sprintf("VIOL partial-effect: ReplicateTx returned no error but committed tx id went %d -> %d", before.committed, st.LastCommittedTxID())
+			}
+			return "ok accepted"
+		}
+		if after := stateOf(st); after != before {
+			return fmt.Sprintf("VIOL partial-effect: input rejected (%v) but store state changed: committed %d->%d precommitted %d->%d alh %x->%x",
+				err, before.committed, after.committed, before.precommitted, after.precommitted, before.alh[:4], after.alh[:4])
+		}
+		if valid != nil {
+			if _, err2 := st.ReplicateTx(bg, valid, skipIntegrity, false); err2 != nil {
+				return fmt.Sprintf("VIOL partial-effect: after the rejected input (%v) the valid transaction is no longer accepted: %v", err, err2)
+			}
+			if st.LastCommittedTxID() != before.committed+1 {
+				return "VIOL partial-effect: valid transaction accepted after a rejected one but not committed"
+			}
+		}
+		return "err: " + err.Error()
+	}
+}
+
+// ---------- SQL index entry mapper ----------
+
+var mapperStore *store.ImmuStore
+
+func sqlTemplate(dir string) {
+	p := filepath.Join(dir, "tpl", "sqlstore")
+	st, err := store.Open(p, sopts(1).WithMultiIndexing(true).WithMaxValueLen(256).WithMaxKeyLen(128))
+	must(err)
+	eng, err := sql.NewEngine(st, sql.DefaultOptions().WithPrefix([]byte("sql.")))
+	must(err)
+	for _, q := range []string{"CREATE TABLE t (id INTEGER, v VARCHAR[8], b BOOLEAN, PRIMARY KEY id)", "CREATE INDEX ON t(v)",
+		"INSERT INTO t (id, v, b) VALUES (1, 'abc', true)"} {
+		_, _, err := eng.Exec(bg, nil, q, nil)
+		must(err)
+	}
+	n := st.LastCommittedTxID()
+	tx := store.NewTx(8, 128)
+	must(st.ReadTx(n, false, tx))
+	for _, e := range tx.Entries() {
+		if bytes.HasPrefix(e.Key(), []byte("sql.R.")) {
+			v, err := st.ReadValue(e)
+			must(err)
+			prepEncs["sql.indexEntryMapper"] = append(prepEncs["sql.indexEntryMapper"], enc{Name: "row-value", B: v, Aux: hex.EncodeToString(e.Key())})
+		}
+	}
+	if len(prepEncs["sql.indexEntryMapper"]) != 1 {
+		panic("row entry not found")
+	}
+	must(st.Close())
+	canonTree(p)
+}
+
+// mapperRun feeds the input as the VALUE of a row key to OngoingTx.Set, which calls the entry mapper of the
+// primary index synchronously (the same path ReplicateTx takes on a replica). The transaction is cancelled.
+func mapperInit() {
+	if mapperStore == nil {
+		d := workDir(filepath.Join(prepDir, "tpl", "sqlstore"))
+		st, err := store.Open(d, sopts(1).WithMultiIndexing(true).WithMaxValueLen(256).WithMaxKeyLen(128))
+		must(err)
+		eng, err := sql.NewEngine(st, sql.DefaultOptions().WithPrefix([]byte("sql.")))
+		must(err)
+		tx, err := eng.NewTx(bg, sql.DefaultTxOptions()) // loads the catalog and registers the index specs
+		must(err)
+		tx.Cancel()
+		mapperStore = st
+	}
+}
+
+func mapperRun(e *enc, in []byte) string {
+	key, _ := hex.DecodeString(prepEncs["sql.indexEntryMapper"][0].Aux)
+	tx, err := mapperStore.NewTx(bg, store.DefaultTxOptions())
+	must(err)
+	defer tx.Cancel()
+	return outErr(tx.Set(key, nil, in))
+}
+
+// ---------- valueRefFrom ----------
+
+func vrefTemplate(dir string) {
+	p := filepath.Join(dir, "tpl", "vrefstore")
+	st, err := store.Open(p, sopts(1))
+	must(err)
+	commit(st, nil, kvSpec{"k1", "v1", nil})
+	must(st.WaitForIndexingUpto(bg, 1))
+	must(st.Close())
+	copyDir(filepath.Join(p, "index"), filepath.Join(dir, "tpl", "vref-index-ts1"))
+	st, err = store.Open(p, sopts(1))
+	must(err)
+	commit(st, nil, kvSpec{"k2", "v2", nil})
+	commit(st, nil, kvSpec{"k3", "v3", nil})
+	must(st.WaitForIndexingUpto(bg, 3))
+	must(st.Close())
+	must(os.RemoveAll(filepath.Join(p, "index")))
+	copyDir(filepath.Join(dir, "tpl", "vref-index-ts1"), filepath.Join(p, "index"))
+	canonTree(p)
+	// valid indexed values, read from the index of the full store
+	copyDir(filepath.Join(dir, "tpl", "store-v1", "index"), filepath.Join(dir, "tmp-index"))
+	t, err := tbtree.Open(filepath.Join(dir, "tmp-index"), tbtree.DefaultOptions().WithLogger(quiet).WithCacheSize(16))
+	must(err)
+	for _, k := range []string{"k2", "k4", "k6", "k1"} {
+		v, _, _, err := t.Get([]byte(k))
+		must(err)
+		addEnc("store.valueRefFrom", "indexed-value-"+k, v)
+	}
+	must(t.Close())
+}
+
+// vrefRun writes the input as the indexed value of key "zz" (timestamp 2 of 3) into the index of a store and
+// reads it back through store.Get (valueRefFrom) and Resolve.
+func vrefRun(e *enc, in []byte) string {
+	if len(in) == 0 {
+		return "n/a: the index cannot hold an empty value"
+	}
+	d := workDir(filepath.Join(prepDir, "tpl", "vrefstore"))
+	defer os.RemoveAll(d)
+	t, err := tbtree.Open(filepath.Join(d, "index"), tbtree.DefaultOptions().WithLogger(quiet).WithCacheSize(16))
+	must(err)
+	if err := t.BulkInsert([]*tbtree.KVT{{K: []byte("zz"), V: in, T: 2}}); err != nil {
+		t.Close()
+		return "n/a: " + err.Error()
+	}
+	_, _, err = t.FlushWith(0, true)
+	must(err)
+	must(t.Close())
+	st, err := store.Open(d, sopts(1))
+	must(err)
+	defer st.Close()
+	ref, err := st.Get(bg, []byte("zz"))
+	if err != nil {
+		return "err: " + err.Error()
+	}
+	ref.KVMetadata()
+	ref.TxMetadata()
+	if _, err := ref.Resolve(); err != nil {
+		return "ok ref, resolve err: " + err.Error()
+	}
+	return "ok"
+}
+
+// ---------- on-disk files ----------
+
+// fileEncs: one encoding per file below tpl. Eligible positions: the whole file when it has at most `whole`
+// bytes, otherwise the metadata header plus the first and last 64 bytes of the body; files for which lite
+// returns true (they are covered by a dedicated target) only get the first 8 and the last 64 bytes.
+func fileEncs(target, tpl string, whole int, lite func(rel string) bool) {
+	var rels []string
+	filepath.Walk(tpl, func(p string, fi os.FileInfo, err error) error {
+		if err == nil && !fi.IsDir() {
+			rel, _ := filepath.Rel(tpl, p)
+			rels = append(rels, rel)
+		}
+		return nil
+	})
+	sort.Strings(rels)
+	for _, rel := range rels {
+		bs, err := os.ReadFile(filepath.Join(tpl, rel))
+		must(err)
+		var pos []int
+		if len(bs) > whole {
+			h := fileHeaderLen(bs) + 64
+			if lite != nil && lite(rel) {
+				h = 8
+			}
+			for i := range bs {
+				if i < h || i >= len(bs)-64 {
+					pos = append(pos, i)
+				}
+			}
+		}
+		prepEncs[target] = append(prepEncs[target], enc{Name: rel, B: bs, Pos: pos, Aux: tpl})
+	}
+}
+
+// withAltered copies the template, replaces the file by the altered bytes and runs f on the copy.
+func withAltered(e *enc, in []byte, f func(dir string) string) string {
+	d := workDir(e.Aux)
+	defer os.RemoveAll(d)
+	must(os.WriteFile(filepath.Join(d, e.Name), in, 0644))
+	return f(d)
+}
+
+func storeOpenRun(e *enc, in []byte) string {
+	return withAltered(e, in, func(d string) string {
+		st, err := store.Open(d, sopts(1))
+		if err != nil {
+			return "err: open: " + firstWords(err.Error(), 6)
+		}
+		defer st.Close()
+		n := st.LastCommittedTxID()
+		tx := store.NewTx(8, 32)
+		okTx, okVal := 0, 0
+		for id := uint64(1); id <= n && id <= 8; id++ {
+			if err := st.ReadTx(id, false, tx); err != nil {
+				continue
+			}
+			okTx++
+			for _, en := range tx.Entries() {
+				if _, err := st.ReadValue(en); err == nil {
+					okVal++
+				}
+			}
+			st.ExportTx(id, false, false, tx)
+			st.ReadTxHeader(id, false, false)
+		}
+		if h, err := st.ReadTxHeader(n, false, false); err == nil && n > 1 {
+			if h1, err := st.ReadTxHeader(1, false, false); err == nil {
+				st.DualProof(h1, h)
+			}
+		}
+		for _, k := range []string{"k1", "k4", "k6"} {
+			if ref, err := st.Get(bg, []byte(k)); err == nil {
+				ref.Resolve()
+			}
+		}
+		return fmt.Sprintf("ok open: %d txs, %d readable, %d values", n, okTx, okVal)
+	})
+}
+
+func tbtreeOpts() *tbtree.Options {
+	return tbtree.DefaultOptions().WithLogger(quiet).WithCacheSize(4).WithMaxNodeSize(256).WithMaxKeySize(16).WithMaxValueSize(32).
+		WithFlushBufferSize(256).WithFileSize(1 << 14)
+}
+
+func tbtreeTemplate(dir string) string {
+	p := filepath.Join(dir, "tpl", "tbtree")
+	t, err := tbtree.Open(p, tbtreeOpts())
+	must(err)
+	for round := 0; round < 3; round++ { // three flushes: older nodes are outside the last checksummed range
+		for i := 0; i < 9; i++ {
+			must(t.Insert([]byte(fmt.Sprintf("key%02d", (i*7+round)%12)), []byte(fmt.Sprintf("value-%d-%d", round, i))))
+		}
+		_, _, err := t.FlushWith(0, true)
+		must(err)
+	}
+	must(t.Close())
+	canonTree(p)
+	return p
+}
+
+func tbtreeRun(e *enc, in []byte) string {
+	return withAltered(e, in, func(d string) string {
+		t, err := tbtree.Open(d, tbtreeOpts())
+		if err != nil {
+			return "err: open: " + firstWords(err.Error(), 6)
+		}
+		defer t.Close()
+		n, nh := 0, 0
+		if s, err := t.Snapshot(); err == nil {
+			if r, err := s.NewReader(tbtree.ReaderSpec{}); err == nil {
+				for ; n < 1000; n++ {
+					if _, _, _, _, err := r.Read(); err != nil {
+						break
+					}
+				}
+				r.Close()
+			}
+			if r, err := s.NewReader(tbtree.ReaderSpec{DescOrder: true, SeekKey: []byte("key99")}); err == nil {
+				for k := 0; k < 1000; k++ {
+					if _, _, _, _, err := r.Read(); err != nil {
+						break
+					}
+				}
+				r.Close()
+			}
+			s.Close()
+		}
+		for i := 0; i < 12; i++ {
+			k := []byte(fmt.Sprintf("key%02d", i))
+			t.Get(k)
+			if tvs, _, err := t.History(k, 0, false, 10); err == nil {
+				nh += len(tvs)
+			}
+		}
+		return fmt.Sprintf("ok open: ts=%d, %d keys scanned, %d history values", t.Ts(), n, nh)
+	})
+}
+
+func ahtOpts() *ahtree.Options {
+	return ahtree.DefaultOptions().WithFileSize(1 << 14).WithDataCacheSlots(2).WithDigestsCacheSlots(2).WithWriteBufferSize(256).WithReadBufferSize(64)
+}
+
+func ahtTemplate(dir string) string {
+	p := filepath.Join(dir, "tpl", "ahtree")
+	t, err := ahtree.Open(p, ahtOpts())
+	must(err)
+	for i := 0; i < 5; i++ {
+		_, _, err := t.Append(bytes.Repeat([]byte{byte('a' + i)}, i)) // the first payload is empty
+		must(err)
+	}
+	must(t.Close())
+	canonTree(p)
+	return p
+}
+
+func ahtRun(e *enc, in []byte) string {
+	return withAltered(e, in, func(d string) string {
+		t, err := ahtree.Open(d, ahtOpts())
+		if err != nil {
+			return "err: open: " + firstWords(err.Error(), 6)
+		}
+		defer t.Close()
+		n := t.Size()
+		t.Root()
+		ok := 0
+		for i := uint64(1); i <= n && i <= 16; i++ {
+			if _, err := t.DataAt(i); err == nil {
+				ok++
+			}
+			t.RootAt(i)
+			t.InclusionProof(i, n)
+			t.ConsistencyProof(i, n)
+		}
+		return fmt.Sprintf("ok open: size %d, %d payloads readable", n, ok)
+	})
+}
+
+func appTemplates(dir string) (string, string) {
+	sp := filepath.Join(dir, "tpl", "singleapp")
+	must(os.MkdirAll(sp, 0755))
+	for _, cf := range []int{appendable.NoCompression, appendable.ZLibCompression} {
+		a, err := singleapp.Open(filepath.Join(sp, fmt.Sprintf("comp%d.aof", cf)), singleapp.DefaultOptions().WithMetadata([]byte("wrapped-meta")).
+			WithCompressionFormat(cf).WithWriteBuffer(make([]byte, 64)))
+		must(err)
+		for i := 0; i < 3; i++ {
+			_, _, err := a.Append(bytes.Repeat([]byte{byte('x' + i)}, 10+i))
+			must(err)
+		}
+		must(a.Close())
+	}
+	mp := filepath.Join(dir, "tpl", "multiapp")
+	m, err := multiapp.Open(mp, multiapp.DefaultOptions().WithFileSize(32).WithFileExt("dat").WithMetadata([]byte("wrapped-meta")).WithWriteBufferSize(16).WithReadBufferSize(16))
+	must(err)
+	for i := 0; i < 5; i++ {
+		_, _, err := m.Append(bytes.Repeat([]byte{byte('m' + i)}, 13))
+		must(err)
+	}
+	must(m.Close())
+	canonTree(sp)
+	canonTree(mp)
+	return sp, mp
+}
+
+func singleappRun(e *enc, in []byte) string {
+	return withAltered(e, in, func(d string) string {
+		a, err := singleapp.Open(filepath.Join(d, e.Name), singleapp.DefaultOptions().WithReadOnly(true).WithReadBufferSize(16))
+		if err != nil {
+			return "err: open: " + firstWords(err.Error(), 6)
+		}
+		defer a.Close()
+		sz, _ := a.Size()
+		a.Metadata()
+		buf := make([]byte, 64)
+		n := 0
+		for off := int64(0); off < sz && off < 256; off += 7 {
+			if _, err := a.ReadAt(buf[:9], off); err == nil {
+				n++
+			}
+		}
+		if r := appendable.NewReaderFrom(a, 0, 16); r != nil {
+			r.ReadUint64()
+			r.Read(buf)
+		}
+		return fmt.Sprintf("ok open: size %d format %d, %d reads", sz, a.CompressionFormat(), n)
+	})
+}
+
+func multiappRun(e *enc, in []byte) string {
+	return withAltered(e, in, func(d string) string {
+		m, err := multiapp.Open(d, multiapp.DefaultOptions().WithFileSize(32).WithFileExt("dat").WithMetadata([]byte("wrapped-meta")).WithWriteBufferSize(16).WithReadBufferSize(16))
+		if err != nil {
+			return "err: open: " + firstWords(err.Error(), 6)
+		}
+		defer m.Close()
+		sz, _ := m.Size()
+		m.Metadata()
+		buf := make([]byte, 40)
+		n := 0
+		for off := int64(0); off < sz && off < 256; off += 11 {
+			if _, err := m.ReadAt(buf, off); err == nil || err == io.EOF {
+				n++
+			}
+		}
+		m.Append([]byte("tail"))
+		m.Flush()
+		return fmt.Sprintf("ok open: size %d, %d reads", sz, n)
+	})
+}
+
+func firstWords(s string, n int) string {
+	f := strings.Fields(s)
+	if len(f) > n {
+		f = f[:n]
+	}
+	return strings.Join(f, " ")
+}
+
+// ---------- pgsql session start-up over loopback ----------
+
+var pgAddr string
+
+// pgSessionRun sends the input to a real pgsql server (empty database list: the exchange ends at the
+// database lookup at the latest), half-closes and waits until the server closes the connection. A panic in
+// the session goroutine kills the process (detected by the parent as a crash of this input).
+func pgSessionInit() {
+	if pgAddr == "" {
+		srv := pgserver.New(pgserver.Host("127.0.0.1"), pgserver.Port(0), pgserver.Logger(quiet),
+			pgserver.DatabaseList(database.NewDatabaseList(database.NewDBManager(nil, 2, quiet))))
+		must(srv.Initialize())
+		pgAddr = fmt.Sprintf("127.0.0.1:%d", srv.GetPort())
+		go srv.Serve()
+	}
+}
+
+func pgSessionRun(_ *enc, in []byte) string {
+	conn, err := net.Dial("tcp", pgAddr)
+	must(err)
+	defer conn.Close()
+	if len(in) > 0 {
+		_, err = conn.Write(in)
+		must(err)
+	}
+	conn.(*net.TCPConn).CloseWrite()
+	reply, _ := io.ReadAll(conn)
+	if len(reply) == 0 {
+		return "closed without reply"
+	}
+	return fmt.Sprintf("reply %c, %d bytes", reply[0], len(reply))
+}
+
+func pgSessionEncs() {
+	params := cat(cstr("user"), cstr("immudb"), cstr("database"), cstr("defaultdb"), []byte{0})
+	startup := cat(be32(8+len(params)), be32(196608), params)
+	ssl := cat(be32(8), be32(80877103))
+	addEnc("pgsql.session", "startup", startup)
+	addEnc("pgsql.session", "sslrequest+startup", cat(ssl, startup))
+	addEnc("pgsql.session", "startup+password", cat(startup, []byte{'p'}, be32(4+7), cstr("secret")))
+}
+
+// ---------- registration ----------
+
 func buildMore(dir string, thorough bool) {
 	buildPureEncodings(dir)
+	sqlTemplate(dir)
+	vrefTemplate(dir)
+	// quick: header + first/last 64 bytes of every file (store: only tx and commit log get the header, the aht /
+	// index / value files have their own targets or only matter at their ends); thorough: whole files <= 4 KiB
+	whole, lite := 0, func(rel string) bool { return !strings.HasPrefix(rel, "tx/") && !strings.HasPrefix(rel, "commit/") }
+	if thorough {
+		whole, lite = 4096, nil
+	}
+	fileEncs("store.Open+read", filepath.Join(dir, "tpl", "store-v1"), whole, lite)
+	fileEncs("tbtree.Open+scan", tbtreeTemplate(dir), whole, nil)
+	fileEncs("ahtree.Open+read", ahtTemplate(dir), whole, nil)
+	sp, mp := appTemplates(dir)
+	fileEncs("singleapp.Open+read", sp, 4096, nil)
+	fileEncs("multiapp.Open+read", mp, 4096, nil)
+	pgSessionEncs()
+	all := prepEncs["store.ReplicateTx"] // v1 tx1..4, v0 tx1..2
+	prepEncs["store.ReplicateTx(skipIntegrityCheck)"] = []enc{all[1]}
+	if !thorough { // quick: the multi-entry tx with KV metadata, the tx with truncation + extra metadata, a version-0 tx
+		prepEncs["store.ReplicateTx"] = []enc{all[1], all[3], all[5]}
+	} else {
+		prepEncs["store.ReplicateTx(skipIntegrityCheck)"] = []enc{all[1], all[3]}
+	}
 }
 
 func buildMoreTargets(thorough bool) {
 	buildPureTargets(thorough)
+	addTarget(thorough, "store.ReplicateTx", 1, 2, replicateRun(false))
+	addTarget(thorough, "store.ReplicateTx(skipIntegrityCheck)", 1, 1, replicateRun(true))
+	addTarget(thorough, "sql.indexEntryMapper", 2, 3, mapperRun).init = mapperInit
+	addTarget(thorough, "store.valueRefFrom", 1, 1, vrefRun)
+	addTarget(thorough, "store.Open+read", -1, -1, storeOpenRun)
+	addTarget(thorough, "tbtree.Open+scan", -1, -1, tbtreeRun)
+	addTarget(thorough, "ahtree.Open+read", -1, -1, ahtRun)
+	addTarget(thorough, "singleapp.Open+read", -1, -1, singleappRun)
+	addTarget(thorough, "multiapp.Open+read", -1, -1, multiappRun)
+	addTarget(thorough, "pgsql.session", 2, 2, pgSessionRun).init = pgSessionInit
 }
